@@ -104,13 +104,7 @@ Theorem c23_h264_exact_match : forall needle c,
      exists x0 x1 xr y0 y1 yr,
        hex_decode_go x = Some (x0 :: x1 :: xr) /\ hex_decode_go y = Some (y0 :: y1 :: yr) /\
        x0 = y0 /\ x1 = y1).
-Proof.
-  intros needle c Hn Hc. rewrite (h264_exact_iff needle c Hn Hc). split.
-  - intros (pm & x & y & A & B & C & D & M). exists pm, x, y. repeat split; auto.
-    now apply plid_match_iff.
-  - intros (pm & x & y & A & B & C & D & M). exists pm, x, y. repeat split; auto.
-    now apply plid_match_iff.
-Qed.
+Proof. exact h264_exact_bytes. Qed.
 Print Assumptions c23_h264_exact_match.
 
 (* distinct profile-iop bytes do not match: two H264 codecs whose
